@@ -403,6 +403,28 @@ pub fn gen(out: &mut Out, thorough: bool, focus: &str) {
         cp += if cp < 0x3000 { 1 } else { stride };
     }
     out.notes.insert("scalar_sweep".into(), format!("every scalar below U+3000 and every {}th above, as a one-character string (and as a key)", stride));
+    // every scalar below U+3000 (and every stride-th above) inside an array and as a key under a width
+    // limit that its one-line form exactly meets and one that it exceeds by one: the width a character
+    // contributes (1, 2 for a short escape, 6 for \\u00XX) decides the layout, whatever Unicode class
+    // the character belongs to
+    if focus != "C08" {
+        let mut cp = (out.seed % stride as u64) as u32;
+        let mut n = 0u64;
+        while cp < 0x110000 {
+            if char::from_u32(cp).is_some() {
+                let extra = match cp { 0x22 | 0x5c | 0x8 | 0x9 | 0xa | 0xc | 0xd => 2, 0..=0x1f => 6, _ => 1 };
+                // [ "a<c>" ] : brackets 2, padding 2, quotes 2, a 1
+                let fit = 7 + extra;
+                for w in [fit, fit - 1] {
+                    l(format!("print s2,1,1,0,0,1,W{},1,1,0,0,1,0,1,W{} [s61.{:x};]", w, w + 5, cp), out);
+                    if cp % 3 == 0 { l(format!("print s2,1,1,0,0,1,W{},1,1,0,0,1,0,1,W{} {{k{:x}.61;n}}", w, w + 4, cp), out); n += 1; }
+                    n += 1;
+                }
+            }
+            cp += if cp < 0x3000 { 1 } else { stride };
+        }
+        out.count_n("scalar_sweep_under_width_limits", n);
+    }
     // fixed corner values under the three presets
     for v in ["n", "t", "f", "#30;", "#2d.31.2e.35.30.45.2b.33;", "s;", "[]", "{}", "[[]]", "[{}]", "{k;[]}", "{k61;n;k61;t}", "[n,t]", "[[[[[[n]]]]]]"] {
         for p in ["pretty", "compact", "inline"] {
